@@ -15,6 +15,12 @@ case only — no regenerated definition is used):
      of its body; the wait then ends with the body, a reset or the client's departure)     — theorems `timeout_completes`, `outcome_total`
   5. replies MOSN generates itself carry the documented status (404 no route, 502 no healthy host / connection failure,
      503 pool overflow, the configured code of a direct response)                          — theorems `error_reply_codes`, `route_reply`
+  6. every downstream data / trailers call belongs to the same answer as the headers call before it (tokens of the
+     implementation: the x-tok header / the body / the rt trailer of attempt k are `a<k>`, a MOSN-generated reply is `l`) — theorem `reply_body_own`
+  7. a TerminateStream on a kept handler of an EARLIER request (label TS) returns false; without an accepted TerminateStream
+     the access log carries no DownStreamTerminate flag (0x2000)                                — theorem `stale_terminate_ignored`
+  8. after an accepted TerminateStream(code) (TM / TR, also with an in-flight upstream response landing inside the call) the
+     client receives exactly the header-only local reply `code`                                — theorems `terminate_wins_or_loses_atomically`, `terminate_completes`
 A `mc <cfg> <amb> <limit>` case runs the explicit-state exploration of the model (every schedule up to the state limit)
 against the executable invariant; it has no implementation side.
 -/
@@ -46,6 +52,22 @@ def codesOk (cs : Case) (t : List Ev) : Bool :=
        | some .connfail => code == 502
        | none => true)
 
+/-- the TerminateStream labels of the schedule with the return value the implementation reported -/
+def termCalls (cs : Case) (i : Impl) : List (Label × Bool) := (cs.sched.filter isTerminate).zip i.tm
+
+def logFlags (t : List Ev) : Nat := (t.findSome? (fun e => match e with | .log _ f => some f | _ => none)).getD 0
+
+/-- clauses 7 and 8 (0x2000 = api.DownStreamTerminate, written down from the api documentation) -/
+def termOk (cs : Case) (i : Impl) (t : List Ev) : Bool :=
+  let calls := termCalls cs i
+  calls.length == (cs.sched.filter isTerminate).length
+  && calls.all (fun p => match p.1 with | .terminateStale _ _ => !p.2 | _ => true)
+  && (calls.any (·.2) || logFlags t &&& 0x2000 == 0)
+  && (match calls.find? (·.2) with
+      | some (.terminate code, _) => i.trace.filter (fun x => x.startsWith "d") == [s!"dh:{code}:1:l"]
+      | some (.terminateRaced code _ _ _, _) => i.trace.filter (fun x => x.startsWith "d") == [s!"dh:{code}:1:l"]
+      | _ => true)
+
 def spec (cs : Case) (i : Impl) : Bool :=
   match implTrace i with
   | none => false
@@ -58,12 +80,14 @@ def spec (cs : Case) (i : Impl) : Bool :=
     && (i.done || !started || (!cs.cfg.oneway && !terminal && i.up ≥ 1))
     && (!timeoutAfterStart cs.sched || i.done || (cs.sched.any isStreamHead && t.any isHeaders))
     && codesOk cs t
+    && ownOk (implDownToks i)
+    && termOk cs i t
 
 def run (caseToks impl : List String) : String :=
   if caseToks.head? == some "mc" then DownstreamMC.run caseToks else
   match parseCase caseToks, parseImpl impl with
   | some cs, some i =>
-    let out := render (modelOut cs)
+    let out := renderOut cs
     let agree := out == joinWith " " impl
     s!"{if agree then "A" else "D"} {if spec cs i then "S" else "V"} {out}"
   | _, _ => "E E bad-case"
